@@ -31,13 +31,13 @@ MANIFEST = dict(
          "integer builtins' zero-divisor guards: for all operands satisfying the representation invariant every operator returns the exact Z result "
          "(so the result cannot depend on the representation), results satisfy the invariant, no panic except NInt-level division by zero which "
          "the builtins guard, floor/mod identity and sign rules, bit operators = infinite two's complement, shifts = * 2^k and floor / 2^k, eq/cmp/hash "
-         "representation independent, lazy_is_prime n <-> prime n. The model is tied to /repo on every run by an all-pairs sweep of a boundary pool "
+         "representation independent, lazy_is_prime n <-> prime n, lazy_factorize returns prime powers in increasing order whose product is the argument (both total, with explicit fuel). The model is tied to /repo on every run by an all-pairs sweep of a boundary pool "
          "(0, +-1, +-2^31, +-2^32, +-(2^62..2^64) and neighbours, random values up to 2000 bits, each in both representations) x every operator, "
          "at the language level and at the NInt level (four owned/borrowed variants), against the model and against Python integers.",
     note="Trusted: Coq kernel; num-bigint modelled by Z (BigInt + - * / % & | ^ ! << >> sqrt gcd lcm pow div_floor mod_floor mean Z's); the hand-written "
          "model Num/NInt.v (tie to the code is the correspondence run, i.e. differential testing on the pool); extraction + OCaml runner; Rust harness "
-         "bin/c06; Python oracle. factorize: product/primality of the factor list is checked by the oracle on every tested input, proved only as far as "
-         "notes/C06.md says. Shift counts and exponents are kept small (huge counts are the separate class F23).",
+         "bin/c06; Python oracle. The "
+         "int x int arms of NNum's dispatch macros are one line each and covered by correspondence only. Shift counts and exponents are kept small (huge counts are the separate class F23).",
     design="6-C06")
 
 I63 = 2 ** 63
@@ -415,7 +415,7 @@ def direct_un_oracle(key, a):
     if base == "of_big":
         return a
     if base == "hash":
-        return ("hash", le_hex(a)) if in_i64(a) else "any"
+        return "any"      # the byte layout is internal; what the property needs is checked across representations (hash_streams)
     if base == "sqrt":
         return math.isqrt(a) if a >= 0 else "any"
     if base == "is_prime":
@@ -540,6 +540,8 @@ class Tally:
         self.samples = []
         self.outcomes = {}
         self.seen_keys = set()
+        self.hash_model_seen = 0
+        self.hash_model_agree = 0
 
     def judge(self, layer, op, args, impl, model, oracle, replay, impl_rep=None, model_rep=None, nontrivial=True, msg=None):
         """impl/model/oracle are value-level observations; oracle 'any' = no opinion; model None = not modelled"""
@@ -683,6 +685,7 @@ def do_unary(ctx, runner, T, ops, prod_ok, bound):
         mlines.append(f"un {ra} {a} {int(ip)} {int(fz)} {bound} " + ",".join(map(str, pows)))
         meta.append((a, ra, keys, ip, fz))
     dres, pres, mres = run_three(runner, dcases, pcases, mlines, timeout=60.0)
+    hash_streams = {}
     for (a, ra, keys, ip, fz), dr, pr, ml, dc, pc in zip(meta, dres, pres, mres, dcases, pcases):
         m = parse_model_line(ml) if ml is not None else None
         nt = nontriv((a, ra))
@@ -699,8 +702,11 @@ def do_unary(ctx, runner, T, ops, prod_ok, bound):
                     mo, mrp = nint_obs(m[base])
                 if base == "hash":
                     impl = ("hash", s)
-                    if mo is not None:
-                        mo = ("hash", le_hex(int(mo[4:]))) if mo.startswith("i64:") else impl   # a BigInt's own hash stream is not modelled
+                    hash_streams.setdefault(a, {})[ra] = s
+                    if mo is not None and mo.startswith("i64:"):
+                        T.hash_model_seen += 1
+                        T.hash_model_agree += int(s == le_hex(int(mo[4:])))   # statistic only: the model writes one i64
+                    mo = None
                 T.judge("nint", k, args, impl, mo, orc, {"case": dc, "model_line": ml}, rp, mrp, nt)
         rs = pr.get("results") if isinstance(pr, dict) else None
         if not keys:
@@ -727,6 +733,17 @@ def do_unary(ctx, runner, T, ops, prod_ok, bound):
             T.judge("lang", key, args, impl, mo, orc,
                     {"case": {"mode": "prog", "stmts": [pc["stmts"][0], src]}, "model_line": ml, "program": f"{pc['stmts'][0]}; {src}"},
                     r.get("rep"), mrp, nt, msg=r.get("msg"))
+    judge_hash_streams(T, hash_streams)
+
+
+def judge_hash_streams(T, hash_streams):
+    """equal integers must write equal hasher streams whatever their representation (what dict lookup relies on)"""
+    for v, by_rep in hash_streams.items():
+        if len(by_rep) == 2:
+            same = by_rep["S"] == by_rep["B"]
+            T.judge("nint", "hash-repr-indep", (v, "S+B"), "b1" if same else "b0", "b1", "b1",
+                    {"case": {"mode": "un", "a": str(v), "ra": "B", "prime": False, "pows": []},
+                     "what_differs": by_rep})
 
 
 def check_producers(ctx, T, ops):
@@ -855,6 +872,7 @@ def run(ctx):
         "impl_outcomes": T.outcomes,
         "producers": prod_stats,
         "representation_compared": T.rep_seen, "representation_mismatches": T.rep_mismatch,
+        "hash_stream_is_one_i64_as_modelled": f"{T.hash_model_agree}/{T.hash_model_seen}",
         "samples": T.samples[:40],
     })
     if T.rep_mismatch:
